@@ -683,7 +683,7 @@ pub fn exec_med(w: &mut World, op: &Op, rest: &str, env: &mut Env) {
 }
 
 fn float_ok<R: Round, const B: Word>(x: &FBig<R, B>) -> bool {
-    x.repr().exponent().abs() <= 400 && x.repr().significand().bit_len() <= 3000 && x.precision() <= 2000
+    x.repr().exponent().unsigned_abs() <= 400 && x.repr().significand().bit_len() <= 3000 && x.precision() <= 2000
 }
 
 #[allow(dead_code)]
